@@ -24,6 +24,9 @@ type Behaviour struct {
 	DuplicateEvery  int    `json:"duplicate_every,omitempty"` // send every k-th block twice
 	AllowedFast     []int  `json:"allowed_fast,omitempty"`   // pieces announced as allowed-fast (fast extension only)
 	RejectWhenChoked bool  `json:"reject_when_choked,omitempty"`
+	// CloseOnPieceDone: close the connection right after the last data byte of some piece has been sent
+	// (the client then handles the hash result of that piece with the peer already gone).
+	CloseOnPieceDone bool `json:"close_on_piece_done,omitempty"`
 }
 
 // Honest reports whether the behaviour never sends wrong data.
@@ -38,6 +41,8 @@ type Server struct {
 	F    []byte
 	PL   int
 	Info []byte // bencoded info dictionary served over ut_metadata (nil: requests are rejected)
+	Mask []bool // optional: padding mask of F (needed by CloseOnPieceDone to know when a piece is fully supplied)
+	sent map[int]int
 
 	mu          sync.Mutex
 	Served      int // blocks sent
@@ -199,7 +204,25 @@ func (s *Server) run() {
 			s.mu.Lock()
 			s.Served++
 			served := s.Served
+			if s.sent == nil {
+				s.sent = map[int]int{}
+			}
+			s.sent[idx] += ln
+			pieceDone := false
+			if s.B.CloseOnPieceDone {
+				need := 0
+				for b := idx * s.PL; b < min((idx+1)*s.PL, len(s.F)); b++ {
+					if s.Mask == nil || !s.Mask[b] {
+						need++
+					}
+				}
+				pieceDone = s.sent[idx] >= need
+			}
 			s.mu.Unlock()
+			if pieceDone {
+				p.Close()
+				return
+			}
 			sinceChoke++
 			if s.B.DisconnectAfter > 0 && served >= s.B.DisconnectAfter {
 				p.Close()
